@@ -49,8 +49,11 @@ def xval(iso, q):
     return {"below": v[0] * 0.5, "first": v[0], "interior": 0.5 * (v[2] + v[3]), "last": v[-1], "above": v[-1] * 1.5}[q["x"]]
 
 
+FILL_ZERO = False      # toggled by main(): a fill rule of exactly 0 is a fill rule too
+
+
 def fillarg(f):
-    return {"nofill": None, "num": FILLNUM, "extrap": "extrapolate"}[f]
+    return {"nofill": None, "num": 0.0 if FILL_ZERO else FILLNUM, "extrap": "extrapolate"}[f]
 
 
 def do_query(iso, q):
@@ -80,7 +83,7 @@ def do_query(iso, q):
     except Exception as e:
         return ("refused", exc_class(e))
     r = float(r)
-    if q["f"] == "num" and q["op"] != "SP" and r == FILLNUM:
+    if q["f"] == "num" and q["op"] != "SP" and r == (0.0 if FILL_ZERO else FILLNUM):
         return ("fill", r)
     return ("value", r)
 
@@ -223,6 +226,15 @@ def main(tier, seed):
                     pair(q1, q2)
         for _ in range(600):
             pair(rng.choice(qs), rng.choice(qs))
+        # the same with the numeric fill rule being exactly 0 (falsy)
+        global FILL_ZERO
+        FILL_ZERO = True
+        try:
+            for q2 in qs:
+                if q2["f"] == "num" and q2["x"] in ("below", "above", "interior"):
+                    pair(rng.choice(qs), q2)
+        finally:
+            FILL_ZERO = False
     kinds = ("pressure", "loading", "material", "loading_basis", "combined")
     for q1 in (qs if thorough else rng.sample(qs, 40)):
         for j, q2 in enumerate(rng.sample(qs, 6) + [dict(q1, x="interior"), dict(q1, x="last")]):
